@@ -57,6 +57,9 @@ def classify(c):
     if op == "mix":
         return dict(layer="property", what=f"a mix of Write/ReadFrom or Read/WriteTo calls on one codec stream failed (regression of F32-F34): "
                                            f"{c['args']}: {go[:200]}", input=c)
+    if op == "bigx":
+        return dict(layer="property", what=f"snappy reader on a reference-encoded xerial stream with large / varying frames (compressed sizes "
+                                           f"{c['args'][:120]}): {go[:200]}", input=c)
     if op == "proto":
         return dict(layer="property", what=f"protocol.RecordSet.WriteTo with a compressed record set did not round-trip: {c['args']}: {go[:200]}", input=c)
     if op in ("rt", "hist", "conc"):
@@ -101,7 +104,7 @@ def correspondence(ctx):
             texts.append(open(os.path.join(cdir, f)).read())
     rc, out, err, dt = L.sh([gobin, "-seed", str(ctx.seed), "-nx", str(nx), "-nrt", str(ctx.scale(450, 6000)),
                              "-nhist", str(ctx.scale(60, 1000)), "-nconc", str(ctx.scale(10, 100)),
-                             "-npool", str(ctx.scale(30, 500)), "-nsb", str(ctx.scale(200, 3000))], timeout=3000)
+                             "-npool", str(ctx.scale(30, 500)), "-nsb", str(ctx.scale(200, 3000)), "-nbig", str(ctx.scale(8, 200))], timeout=3000)
     if rc != 0:
         raise L.Fail("correspondence", "harness cmd/c16 crashed (panic in a codec? pooled object not handed back?)", (out[-1500:] + err[-2500:]))
     texts.append(out)
@@ -145,7 +148,12 @@ def correspondence(ctx):
                      "(random, zeros, repetitive, text, JSON-like) up to 300 KB; codec options as separate codecs (gzip levels, zstd levels -5..23, deprecated "
                      "constructors); reference-encoded inputs in each format's legal variety (gzip 1/2/4/many members with optional header fields, lz4 frame "
                      "options, zstd multi-frame + skippable frames + CRC/window options, xerial with arbitrary blocks); histories with truncated/"
-                     "corrupt/abandoned streams and failing sinks before a good stream; 2-15 goroutines on one codec value).  sb: the strict snappy decoder of the harness vs coq/Spec/SnappyBlock.v on blocks of seven "
+                     "corrupt/abandoned streams and failing sinks before a good stream; 2-15 goroutines on one codec value).  Block sizes of the reference-encoded xerial inputs are NOT bounded by what kafka-go's own writer emits (32 KiB): xr has "
+                     "forced streams with blocks of 66000..131100 incompressible bytes (frames > 64 KiB, growing and shrinking), xw has the history 'a large "
+                     "unframed use (100-160 KB), then a framed use of the same pooled writer' whose output is read back; bigx (Go side): streams whose frame "
+                     "sizes walk the reader's buffer growth — c, 2c-1, 2c, 2c+1, 4c+1 relative to the capacity reached, shrinks, and 1 KiB..1 MiB blocks, "
+                     "compressible and incompressible — read through Read / io.Copy / mixes; a panic in the codec is caught by the harness and reported as "
+                     "PANIC (property violation with the stream as input).  sb: the strict snappy decoder of the harness vs coq/Spec/SnappyBlock.v on blocks of seven "
                      "snappy/S2 encoders, also corrupted and cut.  mix: regression cases of F32-F34 (lz4 Write then io.Copy; lz4 / gzip Read then io.Copy), which must succeed.  proto: protocol.RecordSet v1/v2 written with each codec from keys/values that are protocol.Bytes with and without a WriteTo method (the protocol-level witness of F32), read back and compared.  pool: random "
                      "New/Use/Close sequences per codec side with object identity observed.  Every case has a non-empty feature vector; "
                      "distinct by hash of op+args",
